@@ -303,7 +303,7 @@ def handleLine (st : State) (line : String) : State × String :=
     (st, verdict true "-" (if ok == "1" then [] else ["C20", "C14"]) [])
   | ["big", _pid, _len, ok] =>
     -- a long conforming document (judged by the harness: returned unchanged by every entry point)
-    (st, verdict true "-" (if ok == "1" then [] else ["C07", "C14", "C15"]) [])
+    (st, verdict true "-" (if ok == "1" then [] else ["C06", "C07", "C14", "C15", "C16"]) [])
   | ["alias", _inp, _outCopy, _out, ok] =>
     -- a result handed out earlier changed (or the caller's input buffer did) while the library was used again
     (st, verdict true "-" (if ok == "1" then [] else ["C01", "C13", "C15"]) [])
